@@ -458,3 +458,43 @@ func VerifC13Override() {
 	vObserve("ndiffs", len(diffs))
 	vAssert(vBreaking(diffs), "the operation-level override of a path-level parameter was narrowed but no Breaking change reported")
 }
+
+func init() { vRegister("VerifC13Media", VerifC13Media) }
+
+// C13 for consumed media types: the list in effect for an operation is its own list or, without
+// one, the list of the spec. Whenever a request body type that the old operation accepted is no
+// longer in the new list in effect, a Breaking difference is reported - whichever of the two
+// levels the lists are written at, on either side.
+func VerifC13Media() {
+	a, b := vMetaSpec("a", 10), vMetaSpec("b", 10)
+	effective := func(sw *spec.Swagger) []string {
+		if op := sw.Paths.Paths["/a"].Get; op != nil && op.Consumes != nil {
+			return op.Consumes
+		}
+		return sw.Consumes
+	}
+	ea, eb := effective(a), effective(b)
+	removed := false
+	for _, m := range ea {
+		still := false
+		for _, n := range eb {
+			if m == n {
+				still = true
+			}
+		}
+		if !still {
+			removed = true
+		}
+	}
+	vCover("compared")
+	diffs, err := Compare(a, b)
+	vAssert(err == nil, "Compare failed")
+	breaking := false
+	for _, d := range diffs {
+		if d.Compatibility == Breaking {
+			breaking = true
+		}
+	}
+	vObserve("removed", removed)
+	vAssert(!removed || breaking, "a media type the operation no longer consumes is not reported as a breaking change")
+}
